@@ -129,10 +129,11 @@ var c09Programs = []program{
 }
 
 type c09Input struct {
-	Prog int    `json:"program"`
-	File int    `json:"file"`
-	Mode string `json:"mode"` // gotypes | goast | goast-refuse
-	Src  string `json:"src,omitempty"`
+	Prog    int      `json:"program"`
+	Program *program `json:"generated_program,omitempty"` // a generated program is its own replay
+	File    int      `json:"file"`
+	Mode    string   `json:"mode"` // gotypes | goast | goast-refuse
+	Src     string   `json:"src,omitempty"`
 }
 
 func c09Check(in c09Input) (key, what string) {
@@ -158,7 +159,12 @@ func c09Check(in c09Input) (key, what string) {
 		}
 		return "", ""
 	}
-	prog := c09Programs[in.Prog]
+	var prog program
+	if in.Program != nil {
+		prog = *in.Program
+	} else {
+		prog = c09Programs[in.Prog]
+	}
 	c := typeCheck(prog)
 	if c.err != nil {
 		return "c09-program", "the generated program does not type-check: " + c.err.Error()
@@ -183,7 +189,12 @@ func c09Check(in c09Input) (key, what string) {
 	}
 	if derr != nil {
 		if in.Mode == "goast" {
-			return "", "" // refusal is checked separately
+			// goast may refuse only what it cannot decide: a dot-import (the generator never writes
+			// two imports under one name: go/types would reject the file)
+			if !strings.Contains(derr.Error(), "dot-import") || !fileHasDotImport(af) {
+				return "c09-goast-refused", "goast refused a file without dot-imports whose imports have distinct names: " + derr.Error()
+			}
+			return "", ""
 		}
 		return "c09-error", "decoration failed: " + derr.Error()
 	}
@@ -245,6 +256,15 @@ func c09Check(in c09Input) (key, what string) {
 	return "", ""
 }
 
+func fileHasDotImport(f *ast.File) bool {
+	for _, is := range f.Imports {
+		if is.Name != nil && is.Name.Name == "." {
+			return true
+		}
+	}
+	return false
+}
+
 func c09Prop(c *Ctx) {
 	c.Res.Rule = "a type-correct three-package program (remote package with embedded fields, generics, methods; a vendored package; the package under test with a qualified-import file using shadowing, composite-literal keys incl. embedded fields, labels, generic instantiation; a dot-import file; an aliased-import file), type-checked in memory: every identifier's path vs the types.Info-derived expectation (gotypes), goast on the files it can decide, goast's refusals (asked twice); non-trivial = distinct (file, mode)"
 	for pi, p := range c09Programs {
@@ -263,6 +283,36 @@ func c09Prop(c *Ctx) {
 					c.Res.fail(key, what, in)
 				}
 			}
+		}
+	}
+	// generated programs: every file under gotypes; under goast the files without dot-imports must be
+	// decided (and agree), the others refused
+	shapeSeen := map[string]int{}
+	for gi := 0; gi < c.N(40); gi++ {
+		g := genProgram(c.Rng)
+		last := g.Prog.Pkgs[len(g.Prog.Pkgs)-1]
+		for fi := range last.Files {
+			for _, sh := range g.Shapes[fi] {
+				shapeSeen[sh]++
+			}
+			for _, gi := range g.Imports[fi] {
+				c.Res.hist("c09-import-style", gi.Style)
+			}
+			for _, m := range []string{"gotypes", "goast"} {
+				pp := g.Prog
+				in := c09Input{Program: &pp, File: fi, Mode: m}
+				c.Res.Evaluations++
+				c.Res.seen(last.Files[fi] + m)
+				c.Res.hist("c09", m+"-generated")
+				if key, what := c09Check(in); key != "" {
+					c.Res.fail(key, what, in)
+				}
+			}
+		}
+	}
+	for k, v := range shapeSeen {
+		for i := 0; i < v; i++ {
+			c.Res.hist("c09-use-shapes", k)
 		}
 	}
 	refuse := []string{
